@@ -787,10 +787,37 @@ fn sparse_vector_inner(em: &mut Emit, rng: &mut Rng, universe: usize, values: &[
 
 // runs as given to the builder: increasing starts, possibly adjacent (the builder merges those), all inside len
 fn rl_vector(em: &mut Emit, rng: &mut Rng, len: usize, runs: &[(usize, usize)], nentries: usize) {
+    // the calls that present the runs: whole runs, or two adjacent pieces with calls in between that the
+    // documentation says have no effect (set_len to the current length or below, an empty run); sometimes the gap in
+    // front of a run is declared first with set_len(start)
+    enum BCall { Set(usize, usize), Len(usize) }
+    let mut calls: Vec<BCall> = Vec::new();
+    let mut cur = 0usize;
+    for (s, l) in runs.iter() {
+        if *s > cur && rng.chance(1, 5) {
+            calls.push(BCall::Len(*s));
+        }
+        if *l >= 2 && rng.chance(1, 3) {
+            let a = 1 + rng.below(*l as u64 - 1) as usize;
+            calls.push(BCall::Set(*s, a));
+            match rng.below(3) {
+                0 => calls.push(BCall::Len(*s + a)),
+                1 => calls.push(BCall::Len(rng.below((*s + a) as u64 + 1) as usize)),
+                _ => calls.push(BCall::Set(*s + a, 0)),
+            }
+            calls.push(BCall::Set(*s + a, *l - a));
+        } else {
+            calls.push(BCall::Set(*s, *l));
+        }
+        cur = *s + *l;
+    }
     let built = catch(|| {
         let mut builder = RLBuilder::new();
-        for (s, l) in runs.iter() {
-            builder.try_set(*s, *l).unwrap();
+        for c in calls.iter() {
+            match c {
+                BCall::Set(s, l) => builder.try_set(*s, *l).unwrap(),
+                BCall::Len(n) => builder.set_len(*n),
+            }
         }
         builder.set_len(len);
         RLVector::from(builder)
